@@ -112,7 +112,10 @@ def pre_step(world: World, sim: SimRunner, inputs: InputData):
         # times can have different lengths).
         if sim.last_step.time >= 0:
             suc_node = (suc, sims[suc].last_step)
-            eg.add_edge(suc_node, node_id)
+            # The successor may not have performed any step yet. (Adding
+            # the edge anyway would create a node without attributes.)
+            if suc_node in eg:
+                eg.add_edge(suc_node, node_id)
             assert sims[suc].progress.time.time + 1 >= next_step.time
 
 
